@@ -112,6 +112,16 @@ CHECKS = {
             "Parameter/buffer/callable parameters) leave the original's state snapshot unchanged — with 4 KNOWN findings rooted in the shared "
             "_parameters dict of SpatialTransform.__copy__. Does not decide: aliasing created inside torch, requires_grad side effects, user callables.",
             "DESIGN.md 4/C15"),
+    "C19": (True, "E5(T19)",
+            "abstract interpretation of the classes' own __torch_function__ / __getitem__ / __iter__ / copy code over a list of torch programs, "
+            "with voxel symbols that name the batch item they belong to",
+            "Decides for ImageBatch and FlowFields batches of 3 items with distinct grids: for 31 torch operations (elementwise, reductions, "
+            "narrow/select, cat/split/tensor_split/chunk/unbind, flip/roll/index_select, repeat/expand/reshape/transpose/permute, padding, "
+            "pooling, casts, clone) and 13 indexing forms plus iteration, a result of image type carries one grid per entry, grid shape = data "
+            "shape, and entry i carries the grid (and axes) of the item whose voxels it holds; otherwise it is a plain tensor; copy/deepcopy "
+            "of all four types preserve type, data, grids and axes. 6 KNOWN findings: batch-reordering ops keep the input grid order. Does not "
+            "decide: the open-ended space of all torch functions, pickling (storage protocol).",
+            "DESIGN.md 4/C19"),
 }
 
 NOT_BUILT_REASON = "static check for this property is designed (DESIGN.md section 4) but not yet built in this revision"
